@@ -154,7 +154,7 @@ func TestC17(t *testing.T) {
 				lists = append(lists, []string{a})
 				for _, b := range pool {
 					lists = append(lists, []string{a, b})
-					for _, d := range pool[:6] {
+					for _, d := range pool {
 						lists = append(lists, []string{a, b, d})
 					}
 				}
@@ -193,6 +193,26 @@ func TestC17(t *testing.T) {
 						}
 						if !member {
 							bad = fmt.Sprintf("%s printed %q, which is none of its arguments %q", calls[i], res, ln[:len(l)])
+							break
+						}
+						// and it is the least / greatest: NaN (possible only when an argument is NaN) or a value that no
+						// comparable argument beats
+						rv, err := strconv.ParseFloat(res, 64)
+						if err != nil {
+							bad = fmt.Sprintf("%s printed %q, not a number", calls[i], res)
+							break
+						}
+						isMin := strings.HasPrefix(calls[i], bn.BMin)
+						for _, a := range ln[:len(l)] {
+							av, _ := strconv.ParseFloat(a, 64)
+							if math.IsNaN(rv) || math.IsNaN(av) {
+								continue
+							}
+							if isMin && av < rv || !isMin && av > rv {
+								bad = fmt.Sprintf("%s printed %q although %q is among its arguments", calls[i], res, a)
+							}
+						}
+						if bad != "" {
 							break
 						}
 					}
